@@ -35,6 +35,9 @@ func (c *Ctx) guardPolarity(rels ...string) {
 		c.alignmentGuards(f)
 		c.validatorPolarity(f)
 		c.accumulatorWidth(f)
+		c.lengthMatchGuards(f)
+		c.presenceGuards(f)
+		c.defaultingPolarity(f)
 	}
 }
 
@@ -455,4 +458,186 @@ func (c *Ctx) nilContradictions(rule string, rels ...string) int {
 	}
 	c.ok(rule, "no pointer is dereferenced where the function's own nil test says it is nil", token.NoPos, fmt.Sprintf("%d dereferences of nil-tested pointers examined in %v", n, rels))
 	return n
+}
+
+// lengthMatchGuards: a comparison of two lengths (len(x), reflect Len()) with == / != whose one
+// branch fails directly fails on the UNEQUAL side: the code demands matching sizes, it never
+// forbids them.
+func (c *Ctx) lengthMatchGuards(f *ssa.Function) {
+	const R = "E16.length-match"
+	isLen := func(v ssa.Value) bool {
+		cl := callOf(stripConv(v))
+		if cl == nil {
+			return false
+		}
+		if bi, ok := cl.Call.Value.(*ssa.Builtin); ok {
+			return bi.Name() == "len"
+		}
+		if cl.Call.IsInvoke() {
+			return cl.Call.Method.Name() == "Len"
+		}
+		return strings.HasSuffix(callQName(&cl.Call), ".Len")
+	}
+	n := 0
+	for _, b := range f.Blocks {
+		iff := lastIf(b)
+		if iff == nil {
+			continue
+		}
+		bo, ok := iff.Cond.(*ssa.BinOp)
+		if !ok || (bo.Op != token.EQL && bo.Op != token.NEQ) || !isLen(bo.X) || !isLen(bo.Y) {
+			continue
+		}
+		t, e := failsDirectly(f, b.Succs[0]), failsDirectly(f, b.Succs[1])
+		if t == e {
+			continue
+		}
+		failsWhenEqual := (t && bo.Op == token.EQL) || (e && bo.Op == token.NEQ)
+		n++
+		key := fmt.Sprintf("%s: length comparison", fnName(f))
+		if n > 1 {
+			key += fmt.Sprintf("#%d", n)
+		}
+		c.check(!failsWhenEqual, R, key, bo.Pos(), "the error is on the unequal side", fmt.Sprintf("%s returns an error exactly when %s and %s are EQUAL and goes on when they differ: the size check is inverted", fnName(f), shape(bo.X, 2), shape(bo.Y, 2)))
+	}
+}
+
+// presenceGuards: a branch on "is it there?" - the ok of a map lookup or type assertion, or the
+// Exists flag of a Maybe - with one directly failing arm fails on the ABSENT side.
+func (c *Ctx) presenceGuards(f *ssa.Function) {
+	const R = "E16.presence-guard"
+	n := 0
+	for _, b := range f.Blocks {
+		iff := lastIf(b)
+		if iff == nil {
+			continue
+		}
+		cond, neg := iff.Cond, false
+		if u, ok := cond.(*ssa.UnOp); ok && u.Op == token.NOT {
+			cond, neg = u.X, true
+		}
+		what := ""
+		if ex, ok := cond.(*ssa.Extract); ok && ex.Index == 1 {
+			switch t := ex.Tuple.(type) {
+			case *ssa.Lookup:
+				if t.CommaOk {
+					what = "the ok of a map lookup"
+				}
+			case *ssa.TypeAssert:
+				if t.CommaOk {
+					what = "the ok of a type assertion"
+				}
+			}
+		}
+		if ld, ok := cond.(*ssa.UnOp); ok && ld.Op == token.MUL {
+			if _, fn, ok := fieldOf(ld.X); ok && fn == "Exists" {
+				what = "the Exists flag of " + shape(ld.X, 2)
+			}
+		}
+		if what == "" {
+			continue
+		}
+		t, e := failsDirectly(f, b.Succs[0]), failsDirectly(f, b.Succs[1])
+		if t == e {
+			continue
+		}
+		failsWhenPresent := (t && !neg) || (e && neg)
+		n++
+		key := fmt.Sprintf("%s: branch on %s", fnName(f), what)
+		if n > 1 {
+			key += fmt.Sprintf("#%d", n)
+		}
+		c.check(!failsWhenPresent, R, key, iff.Cond.Pos(), "the error is on the absent side", fmt.Sprintf("%s returns an error exactly when %s is TRUE and goes on when the thing is absent: the presence test is inverted", fnName(f), what))
+	}
+}
+
+// defaultingPolarity: `if x == zero { x = default }`. A constant stored into a field behind a
+// comparison of that same field with its zero value must sit on the "is zero" side; on the other
+// side it overwrites what was configured and leaves the unset case at zero.
+func (c *Ctx) defaultingPolarity(f *ssa.Function) {
+	const R = "E16.defaulting"
+	n := 0
+	allInstrs(f, func(b *ssa.BasicBlock, in ssa.Instruction) {
+		st, ok := in.(*ssa.Store)
+		if !ok {
+			return
+		}
+		fa, ok := st.Addr.(*ssa.FieldAddr)
+		if !ok {
+			return
+		}
+		if _, isConst := stripConv(st.Val).(*ssa.Const); !isConst {
+			if ld, ok := stripConv(st.Val).(*ssa.UnOp); !ok || ld.Op != token.MUL {
+				return
+			} else if _, isG := ld.X.(*ssa.Global); !isG {
+				return
+			}
+		}
+		for _, ft := range factsAt(f, b) {
+			bo, ok := ft.Cond.(*ssa.BinOp)
+			if !ok || (bo.Op != token.EQL && bo.Op != token.NEQ) {
+				continue
+			}
+			ld, ok := stripConv(bo.X).(*ssa.UnOp)
+			if !ok || ld.Op != token.MUL {
+				continue
+			}
+			fa2, ok := ld.X.(*ssa.FieldAddr)
+			if !ok || fa2.Field != fa.Field || !sameBase(fa2.X, fa.X, 0) {
+				continue
+			}
+			zero := false
+			if k, ok := constInt(bo.Y); ok && k == 0 {
+				zero = true
+			}
+			if isNilConst(bo.Y) {
+				zero = true
+			}
+			if cst, ok := bo.Y.(*ssa.Const); ok && cst.Value != nil && cst.Value.ExactString() == `""` {
+				zero = true
+			}
+			if !zero {
+				continue
+			}
+			// a default is something other than the zero value (storing the zero value behind a test
+			// for it is a state transition, not a default)
+			if k, ok := constInt(stripConv(st.Val)); ok && k == 0 {
+				continue
+			}
+			n++
+			key := fmt.Sprintf("%s: default for %s", fnName(f), shape(fa, 2))
+			if n > 1 {
+				key += fmt.Sprintf("#%d", n)
+			}
+			c.check((bo.Op == token.EQL) == ft.Truth, R, key, st.Pos(), "the default is stored where the field is zero", fmt.Sprintf("%s stores a default into %s on the path where the field is NOT zero: a configured value is overwritten and an unset one stays zero", fnName(f), shape(fa, 2)))
+		}
+	})
+}
+
+// radixDiscipline: every number this module parses from or prints to text with an explicit radix
+// uses 2, 10 or 16; nothing in the TON text forms uses another base.
+func (c *Ctx) radixDiscipline(rule string, rels ...string) {
+	n := 0
+	for _, f := range c.moduleFuncs(rels...) {
+		allInstrs(f, func(_ *ssa.BasicBlock, in ssa.Instruction) {
+			cl, ok := in.(*ssa.Call)
+			if !ok {
+				return
+			}
+			idx := map[string]int{"strconv.ParseInt": 1, "strconv.ParseUint": 1, "strconv.FormatInt": 1, "strconv.FormatUint": 1, "math/big.Int.SetString": 2, "math/big.Int.Text": 1}
+			i, ok := idx[callQName(&cl.Call)]
+			if !ok || i >= len(cl.Call.Args) {
+				return
+			}
+			base, ok := constInt(cl.Call.Args[i])
+			if !ok {
+				return
+			}
+			n++
+			if base != 2 && base != 10 && base != 16 && base != 0 {
+				c.bad(rule, fmt.Sprintf("%s: %s in radix %d", fnName(f), shortQ(callQName(&cl.Call)), base), cl.Pos(), fmt.Sprintf("%s converts a number with radix %d; the text forms of this library are decimal, hexadecimal or (tags) binary", fnName(f), base))
+			}
+		})
+	}
+	c.ok(rule, "explicit radices are 2, 10 or 16", token.NoPos, fmt.Sprintf("%d conversions with a constant radix in %v", n, rels))
 }
